@@ -72,7 +72,9 @@ def gen_history(rng):
             f'<w:lvl w:ilvl="{i}">' + (f'<w:start w:val="{st}"/>' if st is not None else '') + (f'<w:numFmt w:val="{fm}"/>' if fm else '') + '<w:lvlText w:val="%1."/></w:lvl>'
             for i, (st, fm) in enumerate(ls)) + '</w:abstractNum>'
     xml += '<w:num w:numId="1"><w:abstractNumId w:val="0"/></w:num><w:num w:numId="2"><w:abstractNumId w:val="1"/></w:num>'
-    if rng.random() < 0.3: xml += '<w:num w:numId="3"/>'
+    k3 = rng.random()
+    if k3 < 0.3: xml += '<w:num w:numId="3"/>'
+    elif k3 < 0.55: xml += '<w:num w:numId="3"><w:abstractNumId w:val="7"/></w:num>'      # refers to a definition that does not exist: list 3 alone is undefined
     tok = [0]
     def item():
         tok[0] += 1
